@@ -1,5 +1,6 @@
 (* C12  Access-checking / selecting wrappers never let a rejected repository through.
-   Statements only; proofs live in Proofs/FilterSelect.v.  Throughout: [bstep] is an
+   Statements only; proofs live in Proofs/FilterSelect.v (one wrapper) and
+   Proofs/FilterStack.v (wrappers applied to each other).  Throughout: [bstep] is an
    arbitrary wrapped registry with arbitrary state [st]; [check] is an arbitrary policy
    (function of name and access kind, [None] = allowed); [listAll] distinguishes the
    wrapper built by AccessChecker (false) from the one built by Select (true);
@@ -9,7 +10,7 @@
    (r, list) for Tags and Referrers, and ("*", list) for Repositories under AccessChecker.
    The third component of a step's result is the trace: the backend calls made. *)
 From Coq Require Import String.
-From OCI Require Import Model.Filter Proofs.FilterSelect.
+From OCI Require Import Model.Filter Model.FilterStack Proofs.FilterSelect Proofs.FilterStack.
 
 (* When the policy rejects any of the pairs a call needs, the wrapped registry is not
    invoked at all and its state is untouched; the first rejected pair, in the order
@@ -166,6 +167,112 @@ Theorem C12_unknown_methods_fail_closed :
 Proof. exact @promoted_fail_closed. Qed.
 Print Assumptions C12_unknown_methods_fail_closed.
 
+(* ---- wrappers applied to each other ----
+   AccessChecker and Select take any registry, in particular the result of AccessChecker or
+   Select.  [stack_step ls bstep] is the wrapper built from the levels [ls] (outermost first;
+   a level is the pair of fields check and listAll of one wrapper) over the innermost registry
+   [bstep]: the one-wrapper model applied to itself (Model/FilterStack.v).  The trace is the
+   list of calls that reach the INNERMOST registry.  [stack_denial ls o] asks the levels from
+   the outside in, each with the pairs its own wrapper needs for [o], and is the answer of the
+   first level that rejects. *)
+
+(* Every call through every stack, completely: some level rejects - nothing reaches the
+   innermost registry, its state is untouched, the caller gets that rejection; or no level
+   does - exactly the direct call, the result passed out through every level's listing
+   filter. *)
+Theorem C12_stack_characterised :
+  forall (B : Type) (bstep : registry B) (ls : list layer) (st : B) (o : op),
+    stack_step ls bstep st o =
+      match stack_denial ls o with
+      | Some e => (st, deliver o e, [])
+      | None => (fst (bstep st o), stack_post ls o (snd (bstep st o)), [o])
+      end.
+Proof. exact @stack_step_spec. Qed.
+Print Assumptions C12_stack_characterised.
+
+(* A rejection by ANY level, wherever it sits in the stack and whatever the other levels'
+   policies say, stops the call before the innermost registry: every level's policy is
+   consulted. *)
+Theorem C12_stack_no_call_when_any_level_denies :
+  forall (B : Type) (bstep : registry B) (ls : list layer) (st : B) (o : op) (l : layer),
+    In l ls ->
+    (exists rk, In rk (pre_checks (l_listAll l) o) /\ l_check l (fst rk) (snd rk) <> None) ->
+    exists e, stack_denial ls o = Some e /\ stack_step ls bstep st o = (st, deliver o e, []).
+Proof. exact @stack_denied. Qed.
+Print Assumptions C12_stack_no_call_when_any_level_denies.
+
+(* The error delivered is the one of the OUTERMOST level that rejects (its own first
+   rejected pair): every level outside it let the call pass. *)
+Theorem C12_stack_error_is_outermost_rejection :
+  forall (ls : list layer) (o : op) (e : err),
+    stack_denial ls o = Some e ->
+    exists outer l inner,
+      ls = outer ++ l :: inner /\
+      (forall l', In l' outer -> first_denial (l_check l') (pre_checks (l_listAll l') o) = None) /\
+      first_denial (l_check l) (pre_checks (l_listAll l) o) = Some e.
+Proof. exact stack_denial_some. Qed.
+Print Assumptions C12_stack_error_is_outermost_rejection.
+
+(* When every level allows every pair it needs, the call is the direct call. *)
+Theorem C12_stack_allowed_is_identity :
+  forall (B : Type) (bstep : registry B) (ls : list layer) (st : B) (o : op),
+    (forall l, In l ls -> forall rk, In rk (pre_checks (l_listAll l) o) -> l_check l (fst rk) (snd rk) = None) ->
+    stack_step ls bstep st o = (fst (bstep st o), stack_post ls o (snd (bstep st o)), [o]).
+Proof. exact @stack_allowed. Qed.
+Print Assumptions C12_stack_allowed_is_identity.
+
+(* Over every history through every stack: each call that reaches the innermost registry
+   passed every check of its method at EVERY level ... *)
+Theorem C12_stack_trace_allowed :
+  forall (B : Type) (bstep : registry B) (ls : list layer) (h : list op) (st : B) (o' : op),
+    In o' (ttrace (stack_step ls bstep) st h) ->
+    forall l, In l ls -> forall rk, In rk (op_checks o') -> l_check l (fst rk) (snd rk) = None.
+Proof. exact @stack_trace_allowed. Qed.
+Print Assumptions C12_stack_trace_allowed.
+
+(* ... and the innermost registry's state is exactly the replay of that trace. *)
+Theorem C12_stack_state_is_trace_replay :
+  forall (B : Type) (bstep : registry B) (ls : list layer) (h : list op) (st : B),
+    fst (trun (stack_step ls bstep) st h) = final bstep st (ttrace (stack_step ls bstep) st h).
+Proof. exact @stack_state_replay. Qed.
+Print Assumptions C12_stack_state_is_trace_replay.
+
+(* Repository listings through a stack: when no level refuses the listing, the caller gets
+   exactly the names every level lets it read, in order, then the innermost registry's error. *)
+Theorem C12_stack_listing_filtered :
+  forall (B : Type) (ls : list layer) (bstep : registry B) (st : B) (start : bytes)
+         (st' : B) (l : list bytes) (e : option err),
+    stack_denial ls (Repositories start) = None ->
+    bstep st (Repositories start) = (st', Ok (RList l e)) ->
+    stack_step ls bstep st (Repositories start) =
+      (st', Ok (RList (filter (stack_visible ls) l) e), [Repositories start]).
+Proof. exact @stack_listing. Qed.
+Print Assumptions C12_stack_listing_filtered.
+
+(* The same yield by yield, with the iterators modelled as the Go functions they are (a Seq
+   is a function of its yield callback; each level's Repositories hands its own function
+   literal to the level below): for any innermost events, any consumer and at least one
+   level, either the outermost level that is not built by Select and whose policy rejects
+   ("*", list) makes the consumer receive exactly that error and the innermost iterator is
+   never started, or the consumer receives what ONE function literal with the conjunction of
+   all the levels' filters would deliver - to which the yield-level theorems above apply. *)
+Theorem C12_stack_listing_yields :
+  forall (l : layer) (ls : list layer) (more : nat -> bool) (evs : list yld),
+    stack_drive (l :: ls) more evs =
+      match star_denial (l :: ls) with
+      | Some e => ([([], Some e)], 0%nat)
+      | None => repos_drive (stack_keep (l :: ls)) more 0 evs
+      end.
+Proof. exact stack_drive_spec. Qed.
+Print Assumptions C12_stack_listing_yields.
+
+(* A stack of one level is the wrapper of the theorems above. *)
+Theorem C12_stack_of_one :
+  forall (B : Type) (l : layer) (bstep : registry B) (st : B) (o : op),
+    stack_step [l] bstep st o = ac_step (l_check l) (l_listAll l) bstep st o.
+Proof. exact @stack_one. Qed.
+Print Assumptions C12_stack_of_one.
+
 (* The hypotheses are satisfiable by non-trivial values: a policy that rejects the target
    of a mount but not its source stops the call; one that rejects only another access kind
    lets it through to a backend that answers. *)
@@ -179,4 +286,21 @@ Example C12_example_allowed :
   ac_step (fun r k => if beqb r (s "to") && akind_eqb k AccessRead then Some ErrDenied else None)
           false (fun (st : nat) (o : op) => (S st, Ok RUnit)) 0%nat (MountBlob (s "from") (s "to") (s "d"))
   = (1%nat, Ok RUnit, [MountBlob (s "from") (s "to") (s "d")]).
+Proof. reflexivity. Qed.
+
+(* A checker that refuses repository listing, in front of a Select: the listing is refused
+   and the backend is not asked, although Select by itself always permits listing. *)
+Example C12_example_stack_listing_denied :
+  stack_step [checker_layer (fun r k => if beqb r star && akind_eqb k AccessList then Some ErrDenied else None);
+              select_layer (fun r => beqb r (s "public"))]
+             (fun (st : nat) (o : op) => (S st, Ok (RList [s "public"; s "private"] None))) 0%nat (Repositories [])
+  = (0%nat, Ok (RList [] (Some ErrDenied)), []).
+Proof. reflexivity. Qed.
+
+(* ... and the other way round the listing is filtered by both. *)
+Example C12_example_stack_listing_filtered :
+  stack_step [select_layer (fun r => negb (beqb r (s "private")));
+              checker_layer (fun r k => if beqb r (s "hidden") && akind_eqb k AccessRead then Some ErrDenied else None)]
+             (fun (st : nat) (o : op) => (S st, Ok (RList [s "public"; s "hidden"; s "private"] None))) 0%nat (Repositories [])
+  = (1%nat, Ok (RList [s "public"] None), [Repositories []]).
 Proof. reflexivity. Qed.
